@@ -6,7 +6,7 @@
    every specification that dawgie.schedule / compliant.rule_10 accept with
    dow in 0..6, dom in 1..31, a valid date, or boot. *)
 From Coq Require Import ZArith List Bool Lia.
-From DV Require Import Model.Delay Proofs.DelayProofs.
+From DV Require Import Model.Delay Proofs.DelayProofs Proofs.DelayTimerProofs.
 Import ListNotations.
 Local Open Scope Z_scope.
 
@@ -234,6 +234,31 @@ Theorem C20_recurs_partial : forall now targets st,
   defer now targets st = (st, None).
 Proof. exact dl_defer_noop. Qed.
 Print Assumptions C20_recurs_partial.
+
+(* the re-arm half that does hold, for every state: when an examined event
+   (node neither running nor waiting) is computable and not yet due, defer()
+   arms exactly one timer, for the rounded smallest pending delay m, which is
+   outside the window and not later than that event; a paused pipeline looks
+   again in 10 s and touches nothing else *)
+Theorem C20_rearm : forall now targets st st' id p th d,
+  s_paused st = false ->
+  defer now targets st = (st', None) ->
+  In id (s_per st) -> skipped (nd_status (s_node st id)) = false ->
+  In p (nd_period (s_node st id)) -> m_boot (snd p) = None ->
+  fst (delay [] p now) = Ok th d -> WINDOW_US < d ->
+  exists m, s_timers st' = s_timers st ++ [round_seconds m] /\ WINDOW_US < m <= d /\
+            - US <= 2 * (round_seconds m * US - m) <= US.
+Proof.
+  intros now targets st st' id p th d Pz D I S P B E W.
+  destruct (dt_rearm now targets st st' id p th d Pz D I S P B E W) as [m [T R]].
+  exists m. split; [exact T|]. split; [exact R|apply dt_round_close].
+Qed.
+Print Assumptions C20_rearm.
+
+Theorem C20_paused : forall now targets st,
+  s_paused st = true -> defer now targets st = (add_timer 10 st, None).
+Proof. exact dt_paused. Qed.
+Print Assumptions C20_paused.
 
 Example C20_rearm_example :
   (* Monday 00:58, weekly event Monday 12:00: not due, one timer of 39720 s *)
